@@ -110,6 +110,17 @@ def build_ann(t, env):
         return Rule.annotate(c02.CLS_BY_NAME[r["origin"]], constraints={k: decode(b) for k, b in r["cs"]})
     if "dc" in t:
         return env[t["dc"]]
+    if "cr" in t:
+        c = t["cr"]
+        origin = c02.ORIGINS[c["origin"]]
+        args = [resolve_type(build_ann(a, env)) for a in c["args"]]
+        cons = cr_constraints(c, env)
+        if c.get("how") == "class":
+            attrs = dict(cons, __args__=tuple(args))
+            if c.get("ellipsis"):
+                attrs["__ellipsis_args__"] = True
+            return type("C", (origin, Rule), attrs)
+        return Rule.annotate(origin, *(args + ([...] if c.get("ellipsis") else [])), constraints=cons)
     if "g" in t:
         args = [build_ann(a, env) for a in t["args"]]
         g = t["g"]
@@ -145,6 +156,29 @@ def build_ann(t, env):
     raise ValueError(t)
 
 
+def cr_constraints(c, env):
+    cons = {k: decode(b) for k, b in c.get("cs", [])}
+    ct = c.get("contains")
+    if ct:
+        cons["contains"] = resolve_type(build_ann(ct["t"], env))
+        if ct.get("min") is not None:
+            cons["min_contains"] = ct["min"]
+        if ct.get("max") is not None:
+            cons["max_contains"] = ct["max"]
+    return cons
+
+
+G_ORIGIN = {"List": "list", "Set": "set", "FrozenSet": "frozenset", "TupleE": "tuple", "Tuple": "tuple", "Dict": "dict"}
+
+
+def field_node(f):
+    """the type a field's values are parsed by: its annotation, together with the constraints given to Field(...)"""
+    if f.get("fcs") and "g" in f["type"] and f["type"]["g"] in G_ORIGIN:
+        g = f["type"]["g"]
+        return {"cr": dict(f["fcs"], origin=G_ORIGIN[g], args=f["type"]["args"], ellipsis=(g == "TupleE"))}
+    return f["type"]
+
+
 def resolve_type(ann):
     from utype.parser.rule import Rule
     r = Rule.parse_annotation(ann)
@@ -166,6 +200,8 @@ def build_classes(case):
             for key in ("alias", "alias_from", "no_output", "no_input", "required", "case_insensitive", "on_error", "defer_default"):
                 if f.get(key) is not None:
                     kw[key] = f[key]
+            if f.get("fcs"):
+                kw.update(cr_constraints(f["fcs"], env))
             if list(kw) == ["default"] and not f.get("as_field"):
                 attrs[f["name"]] = kw["default"]          # plain class-level default
             elif kw:
@@ -282,7 +318,7 @@ class _Reparse:
                         continue
                     for key in (f.name, f.attname):
                         if key in data:
-                            c = self.locate(fd["type"], data[key], inner)
+                            c = self.locate(field_node(fd), data[key], inner)
                             tolerant = (f.field.on_error or getattr(inner, "invalid_values", None)) in ("preserve",)
                             if c and not (tolerant and "ok" not in c.get("observed", {})):
                                 # (a value the field keeps although its type rejects it — on_error / invalid_values
@@ -292,6 +328,21 @@ class _Reparse:
                             break
                 return dict(here, kind="dc", dropped_required_no_output=missing)
             return dict(here, kind="dc-foreign")
+        if "cr" in t:
+            c = t["cr"]
+            if type(r) is c02.ORIGINS[c["origin"]]:
+                a = c["args"]
+                if c["origin"] == "dict" and len(a) == 2:
+                    pairs = [(a[0], k_) for k_ in r] + [(a[1], v_) for v_ in r.values()]
+                elif c["origin"] == "tuple" and not c.get("ellipsis"):
+                    pairs = list(zip(a, r))
+                else:
+                    pairs = [(a[0], x) for x in r]
+                for st, sv in pairs:
+                    cc = self.locate(st, sv, eff)
+                    if cc:
+                        return cc
+            return dict(here, kind="container-rule")
         if "g" in t and t["g"] in ("List", "Set", "FrozenSet", "TupleE", "Tuple", "Dict"):
             want = {"List": list, "Set": set, "FrozenSet": frozenset, "TupleE": tuple, "Tuple": tuple, "Dict": dict}[t["g"]]
             if type(r) is want:
@@ -325,6 +376,41 @@ class _Reparse:
         return dict(here, kind="leaf")
 
 
+def _crmodel(R, case):
+    """for a top-level container rule (one item type, sequence origin, default options): the input items as the real item
+    type converts them one by one, and which converted items the contains type takes — the Lean model packs and checks"""
+    import utype
+    t = case["type"]
+    if "cr" not in t or case.get("options") or t["cr"]["origin"] == "dict" or len(t["cr"]["args"]) != 1:
+        return {}
+    c = t["cr"]
+    raw = dec2(case["input"])
+    if not isinstance(raw, (list, tuple, set, frozenset)):
+        return {}
+    if c["origin"] in ("set", "frozenset"):
+        try:
+            raw = c02.ORIGINS[c["origin"]](raw)      # the origin conversion comes first (an unhashable raw item ends it)
+        except TypeError:
+            return {}
+    itemT = resolve_type(build_ann(c["args"][0], R.env))
+    conv = []
+    for x in raw:
+        k, r = R.run(lambda: utype.type_transform(x, itemT))
+        if k == "ok" and isinstance(encode(r), dict) and "o" in encode(r):
+            return {}
+        conv.append(encode(r) if k == "ok" else None)
+    contains = None
+    if c.get("contains"):
+        cT = resolve_type(build_ann(c["contains"]["t"], R.env))
+        acc = []
+        for e in conv:
+            if e is not None:
+                k, _ = R.run(lambda: utype.type_transform(decode(e), cT))
+                acc.append([e, k == "ok"])
+        contains = {"acc": acc, "min": c["contains"].get("min"), "max": c["contains"].get("max")}
+    return {"crmodel": {"op": "crule", "origin": c["origin"], "converted": conv, "cs": c["cs"], "contains": contains}}
+
+
 def impl_reparse(case):
     import warnings
     warnings.simplefilter("ignore")
@@ -337,6 +423,10 @@ def impl_reparse(case):
     k1, first = R.run(lambda: R.top(dec2(case["input"])))
     out["first"] = {k1: deep(first) if k1 == "ok" else first}
     if k1 != "ok":
+        try:
+            out.update(_crmodel(R, case))
+        except Exception:
+            pass
         return out
     # conformance of the declared defaults with their field types (a precondition on the declaration, measured on
     # the *declared* default, not on what the parse copied out of it)
@@ -362,6 +452,7 @@ def impl_reparse(case):
     out["nonconforming_defaults"] = bad
     k2, second = R.run(lambda: R.top(first))
     out["second"] = {k2: deep(second) if k2 == "ok" else second}
+    out.update(_crmodel(R, case))
     if k2 == "ok":
         out["second_equal"] = deep_equal(first, second) and deep_equal(second, first)
     if k2 != "ok" or not out["second_equal"]:
@@ -390,7 +481,7 @@ def impl_reparse(case):
                     fd = next((x for x in desc["fields"] if x["name"] == f.attname), None)
                     for key in (f.name, f.attname):
                         if fd and key in plain:
-                            cul = R.locate(fd["type"], plain[key], inner)
+                            cul = R.locate(field_node(fd), plain[key], inner)
                             tolerant = (f.field.on_error or getattr(inner, "invalid_values", None)) in ("preserve",)
                             if cul and tolerant and "ok" not in cul.get("observed", {}):
                                 cul = None
@@ -476,7 +567,7 @@ def gen_type(rng, depth, nclasses=0, hashable=False):
             return {"g": "Tuple", "args": [leaf_type(rng, True), leaf_type(rng, True)]}
         return {"g": "TupleE", "args": [leaf_type(rng, True)]}
     if k < 0.2:
-        return leaf_type(rng)
+        return leaf_type(rng) if rng.random() < 0.7 else {"cr": gen_cr(rng)}
     if k < 0.32:
         return {"g": "List", "args": [sub()]}
     if k < 0.38:
@@ -561,6 +652,18 @@ def gen_value(rng, t, classes, exact, depth=0):
         return v
     if "dc" in t:
         return gen_dc_input(rng, classes[t["dc"]], classes, depth + 1)
+    if "cr" in t:
+        c = t["cr"]
+        if exact:
+            # an instance: distinct items of the item type, as many as the length bounds ask for
+            n = max([decode(b) for k, b in c["cs"] if k in ("min_length", "length")] + [(c.get("contains") or {}).get("min") or 1, 1])
+            fams = COLLIDE.get(item_origin(c["args"][0]), [[1]])
+            items = [fam[0] for fam in fams[:n]]
+            if c["origin"] == "dict":
+                vf = COLLIDE.get(item_origin(c["args"][1]), [[1]])
+                return {x: vf[0][0] for x in items}
+            return c02.ORIGINS[c["origin"]](items)
+        return gen_cr_input(rng, c)
     if "g" in t:
         g, a = t["g"], t["args"]
         sub = lambda x: gen_value(rng, x, classes, exact, depth + 1)      # noqa
@@ -599,6 +702,85 @@ def gen_value(rng, t, classes, exact, depth=0):
             return gen_value(rng, a[0], classes, exact, depth + 1)
         return rng.choice([1, "a", 2.5, [1], None, "abc", -1, {"k": 1}]) if rng.random() < 0.6 else gen_value(rng, a[0], classes, exact, depth + 1)
     return None
+
+
+# ---- container rules: an origin container with item types AND length / unique / contains constraints, on inputs whose items
+# become equal by conversion (1 and '1', 1 and 1.0, True and 1, 'a' and b'a') or whose keys collide after conversion
+
+COLLIDE = {
+    "int": [[1, "1", 1.0, True, Decimal("1")], [2, "2", 2.0, Decimal("2")], [0, False, "0", 0.0], [7, "7"], [-3, "-3", -3.0]],
+    "float": [[1.0, 1, "1", "1.0", True], [0.5, "0.5", Decimal("0.5")], [2.0, 2, "2"], [0.0, 0, False, "0"]],
+    "Decimal": [[Decimal("1"), 1, "1", Decimal("1.0"), "1.0"], [Decimal("1.5"), "1.5", "1.50", 1.5], [Decimal("0"), 0, "0"]],
+    "str": [["a", b"a"], ["1", 1], ["1.5", 1.5, Decimal("1.5")], ["True", True], ["ab", b"ab"], ["abcd"]],
+    "bool": [[True, 1, "true", "1"], [False, 0, "false", "0"]],
+}
+CR_ITEM_TYPES = [{"b": "int"}, {"b": "int"}, {"b": "str"}, {"b": "float"}, {"b": "Decimal"}, {"b": "bool"},
+                 {"r": {"origin": "int", "cs": [["ge", {"i": "0"}]]}}, {"r": {"origin": "str", "cs": [["max_length", {"i": "3"}]]}}]
+
+
+def item_origin(t):
+    return t["b"] if "b" in t else t["r"]["origin"]
+
+
+def gen_cr(rng):
+    origin = rng.choice(["set", "set", "frozenset", "list", "tuple", "dict"])
+    it = rng.choice(CR_ITEM_TYPES)
+    c = {"origin": origin, "args": [it], "ellipsis": origin == "tuple", "cs": [], "contains": None,
+         "how": rng.choice(["annotate", "annotate", "class"])}
+    if origin == "dict":
+        c["args"] = [rng.choice([{"b": "int"}, {"b": "str"}, {"b": "float"}]), it]
+    k = rng.random()
+    if k < 0.25:
+        c["cs"].append(["length", encode(rng.randint(1, 3))])
+    else:
+        if rng.random() < 0.7:
+            c["cs"].append(["min_length", encode(rng.randint(1, 3))])
+        if rng.random() < 0.4:
+            lo = decode(c["cs"][0][1]) if c["cs"] else 1
+            c["cs"].append(["max_length", encode(lo + rng.randint(0, 2))])
+    if origin in ("list", "tuple") and rng.random() < 0.5:
+        c["cs"].append(["unique_items", True])
+    if origin != "dict" and rng.random() < 0.35:
+        ct = it if rng.random() < 0.5 else rng.choice([t for t in CR_ITEM_TYPES if item_origin(t) == item_origin(it)])
+        mn = rng.choice([None, 1, 2, 2, 3])
+        mx = rng.choice([None, None, 2, 3])
+        if mn is not None and mx is not None and mx < mn:
+            mn, mx = mx, mn
+        c["contains"] = {"t": ct, "min": mn, "max": mx}
+    if not c["cs"] and not c["contains"]:
+        c["cs"].append(["min_length", encode(2)])
+    return c
+
+
+def gen_cr_input(rng, c):
+    """raw items: `d` groups of spellings of the same converted value, so that the converted container has `d` distinct
+    items while the input has more; d around the length / contains bounds"""
+    key_t = c["args"][0]
+    fams = COLLIDE.get(item_origin(key_t), [[1, "1"]])
+    bounds = [decode(b) for k, b in c["cs"] if k in ("min_length", "max_length", "length")]
+    if c.get("contains"):
+        bounds += [x for x in (c["contains"].get("min"), c["contains"].get("max")) if x is not None]
+    d = max(0, min(len(fams), rng.choice([b + o for b in (bounds or [2]) for o in (-1, 0, 0, 1)])))
+    chosen = rng.sample(fams, d)
+    items = []
+    for fam in chosen:
+        k = rng.choice([1, 2, 2, 3])
+        items += rng.sample(fam, min(k, len(fam)))
+    rng.shuffle(items)
+    if c["origin"] == "dict":
+        vt = c["args"][1]
+        pool = [x for fam in COLLIDE.get(item_origin(vt), [[1]]) for x in fam[:2]]
+        out = {}
+        for x in items:
+            try:
+                out[x] = rng.choice(pool)
+            except TypeError:
+                pass
+        return out
+    if rng.random() < 0.08:
+        items.append(rng.choice(["zz", None, [1]]))
+    want = rng.choice([list, list, tuple])
+    return want(items)
 
 
 def factory_for(rng, t):
@@ -651,8 +833,14 @@ def gen_class(rng, idx, classes):
         else:
             t = gen_type(rng, rng.choice([0, 1, 1, 2]), idx)
         f = {"name": nm, "type": t}
+        if rng.random() < 0.18:
+            # Set[int] / FrozenSet[int] / List[...] / Dict[...] annotation with the constraints given to Field(...)
+            c = gen_cr(rng)
+            g = {"set": "Set", "frozenset": "FrozenSet", "list": "List", "tuple": "TupleE", "dict": "Dict"}[c["origin"]]
+            f["type"] = t = {"g": g, "args": c["args"]}
+            f["fcs"] = {"cs": c["cs"], "contains": c["contains"]}
         k = rng.random()
-        if k < 0.3:
+        if k < 0.3 or f.get("fcs"):
             pass                                                   # required
         elif k < 0.65:
             f["default"] = enc2(gen_value(rng, t, classes, True))
@@ -703,7 +891,7 @@ def gen_dc_input(rng, k, classes, depth=0):
             key = rng.choice(f["alias_from"])
         elif rng.random() < 0.06:
             key = key.upper() if key != key.upper() else key.lower()
-        data[key] = gen_value(rng, f["type"], classes, False, depth + 1)
+        data[key] = gen_value(rng, field_node(f), classes, False, depth + 1)
     if rng.random() < 0.12:
         data[rng.choice(["extra", "zz", "Extra_1"])] = rng.choice([1, "x", [1], None])
     return data
@@ -713,7 +901,10 @@ def gen_reparse_case(rng):
     classes = []
     for i in range(rng.choice([0, 1, 1, 1, 2, 2, 3])):
         classes.append(gen_class(rng, i, classes))
-    if classes and rng.random() < 0.7:
+    k = rng.random()
+    if k < 0.15:
+        t = {"cr": gen_cr(rng)}
+    elif classes and k < 0.75:
         t = {"dc": len(classes) - 1}
     else:
         t = gen_type(rng, rng.choice([1, 2, 2, 3]), len(classes))
@@ -848,6 +1039,129 @@ def behaves_as_documented(case, io) -> bool:
         return False
 
 
+# ---- "every declared constraint holds on the RESULT": the documented sense of the constraints (c02.sat), evaluated on what the
+# parse returned, at every node of the type whose constraints are declared data (strict rules, container rules, fields)
+
+UNSAFE_OPTIONS = ("ignore_constraints", "invalid_items", "invalid_values", "invalid_keys", "unresolved_types")
+
+
+class _DC(dict):
+    """a data class instance of the result, as its data"""
+    cls_name = ""
+
+
+def undeep(j):
+    """the Python value a `deep` description stands for (data classes as _DC dicts); raises for opaque leaves"""
+    if isinstance(j, dict):
+        if "K" in j:
+            d = _DC((undeep(k), undeep(v)) for k, v in j["m"])
+            d.cls_name = j["K"]
+            return d
+        if "D" in j:
+            return {undeep(k): undeep(v) for k, v in j["m"]}
+        if "l" in j:
+            return [undeep(x) for x in j["l"]]
+        if "t" in j:
+            return tuple(undeep(x) for x in j["t"])
+        if "S" in j:
+            return {undeep(x) for x in j["S"]}
+        if "F" in j:
+            return frozenset(undeep(x) for x in j["F"])
+        if "o" in j:
+            raise Undefined
+    return decode(j)
+
+
+def leaf_accepts(t, x):
+    """does a leaf type (builtin / strict rule) hold for a value of exactly its class?  Undefined otherwise"""
+    if "b" in t and t["b"] in c02.CLS_BY_NAME:
+        if type(x) is c02.CLS_BY_NAME[t["b"]]:
+            return True
+        raise Undefined
+    if "r" in t:
+        if type(x) is c02.CLS_BY_NAME[t["r"]["origin"]]:
+            return c02.accept_cs([(k, decode(b)) for k, b in t["r"]["cs"]], x)
+    raise Undefined
+
+
+def result_sat(t, r, case):
+    """None, or a sentence naming the declared constraint the result `r` of type `t` does not satisfy"""
+    def pt(x):
+        return C03._reparse_text({"classes": case.get("classes", []), "type": x, "options": None, "input": None}).split(" | ")[-1].split(", options")[0]
+    if "r" in t:
+        try:
+            if leaf_accepts(t, r) is False:
+                return f"{r!r} does not satisfy {pt(t)}"
+        except Undefined:
+            pass
+        return None
+    if "cr" in t:
+        c = t["cr"]
+        if type(r) is not c02.ORIGINS[c["origin"]]:
+            return None
+        for k, b in c["cs"]:
+            try:
+                if not sat(k, r, decode(b)):
+                    return f"the result {r!r} violates {k}={decode(b)!r} of {pt(t)}"
+            except Undefined:
+                pass
+            except Exception:
+                pass
+        ct = c.get("contains")
+        if ct and c["origin"] != "dict":
+            try:
+                n = sum([1 for x in r if leaf_accepts(ct["t"], x)])
+                if n < 1 or (ct.get("min") is not None and n < ct["min"]) or (ct.get("max") is not None and n > ct["max"]):
+                    return f"the result {r!r} holds {n} items of the contains type, outside the declared bounds of {pt(t)}"
+            except Undefined:
+                pass
+        a = c["args"]
+        if c["origin"] == "dict" and len(a) == 2:
+            pairs = [(a[0], k_) for k_ in r] + [(a[1], v_) for v_ in r.values()]
+        elif c["origin"] == "tuple" and not c.get("ellipsis"):
+            pairs = list(zip(a, r))
+        else:
+            pairs = [(a[0], x) for x in r]
+        for st, sv in pairs:
+            w = result_sat(st, sv, case)
+            if w:
+                return w
+        return None
+    if "g" in t:
+        g, a = t["g"], t["args"]
+        if g == "Optional":
+            return None if r is None or "c" in a[0] or a[0].get("g") in ("Optional", "Union") else result_sat(a[0], r, case)
+        want = {"List": list, "Set": set, "FrozenSet": frozenset, "TupleE": tuple, "Tuple": tuple, "Dict": dict}.get(g)
+        if want is None or type(r) is not want:
+            return None
+        if g == "Dict":
+            pairs = [(a[0], k_) for k_ in r] + [(a[1], v_) for v_ in r.values()]
+        elif g == "Tuple":
+            pairs = list(zip(a, r))
+        else:
+            pairs = [(a[0], x) for x in r]
+        for st, sv in pairs:
+            w = result_sat(st, sv, case)
+            if w:
+                return w
+        return None
+    if "dc" in t:
+        k = case["classes"][t["dc"]]
+        if not isinstance(r, _DC) or r.cls_name != k["name"] or any(o in (k.get("options") or {}) for o in UNSAFE_OPTIONS):
+            return None
+        for f in k["fields"]:
+            if f.get("on_error"):
+                continue
+            for key in (f.get("alias") or f["name"], f["name"]):
+                if key in r:
+                    w = result_sat(field_node(f), r[key], case)
+                    if w:
+                        return f"field {f['name']}: {w}"
+                    break
+        return None
+    return None
+
+
 def exact_domain(v) -> bool:
     if isinstance(v, bool):
         return True
@@ -951,10 +1265,35 @@ class C03(C02):
             outs = run_driver(self.driver, [self.model_line(d) for d in derived])
             for i, mo in zip(idx, outs):
                 impl_outs[i]["reparse_model"] = mo
+        cr = [(i, io["crmodel"]) for i, io in enumerate(impl_outs) if isinstance(io, dict) and io.get("crmodel")]
+        if cr and self.driver:
+            from .common import run_driver
+            lines = []
+            for _, l in cr:
+                vals = [decode(e) for e in l["converted"] if e is not None] + [decode(b) for _, b in l["cs"]]
+                lines.append(dict(l, prims=c02.prims_for({"op": "crule", "value": encode(vals)})))
+            outs = run_driver(self.driver, lines)
+            for (i, _), mo in zip(cr, outs):
+                impl_outs[i]["crmodel_out"] = mo
         return impl_outs, model_outs
 
     def compare(self, case, io, mo):
         if case["op"] == "reparse":
+            cm = io.get("crmodel_out") if isinstance(io, dict) else None
+            if isinstance(cm, dict) and "unmodelled" not in cm and "driver-error" not in cm and "first" in io:
+                f = io["first"]
+                if "escape" in f:
+                    return None
+                if ("ok" in f) != ("ok" in cm):
+                    return f"container rule: impl {f} / model (convert items, pack into the origin container, then check) {cm}"
+                if "ok" in f:
+                    try:
+                        a, b = undeep(f["ok"]), decode(cm["ok"])
+                        same_ = type(a) is type(b) and a == b       # (which of two equal spellings a set keeps is CPython's choice)
+                    except Exception:
+                        same_ = True
+                    if not same_:
+                        return f"container rule result differs: impl {f['ok']} model {cm['ok']}"
             return None
         if case["op"] == "copy":
             if not isinstance(mo, dict) or "driver-error" in mo:
@@ -998,6 +1337,16 @@ class C03(C02):
             if io.get("nonconforming_defaults"):
                 return None           # precondition on the declaration: a default must be a value of its field's type
             what = self._reparse_text(case)
+            # every declared constraint holds on the RESULT (not merely on the input)
+            if not any(o in (case.get("options") or {}) for o in UNSAFE_OPTIONS):
+                try:
+                    w = result_sat(case["type"], undeep(io["first"]["ok"]), case)
+                except Undefined:
+                    w = None
+                except Exception:
+                    w = None
+                if w:
+                    return f"{what}: parse succeeded but {w}"
             for key, eq in (("second", "second_equal"), ("plain", "plain_equal")):
                 if key not in io:
                     continue
@@ -1065,6 +1414,12 @@ class C03(C02):
                 return f"Rule[{t['r']['origin']}]({', '.join(k + '=' + repr(decode(b)) for k, b in t['r']['cs'])})"
             if "dc" in t:
                 return case["classes"][t["dc"]]["name"]
+            if "cr" in t:
+                c = t["cr"]
+                cons = [f"{k}={decode(b)!r}" for k, b in c.get("cs", [])]
+                if c.get("contains"):
+                    cons.append(f"contains={pt(c['contains']['t'])}, min={c['contains'].get('min')}, max={c['contains'].get('max')}")
+                return f"Rule[{c.get('origin')}]({', '.join(pt(a) for a in c.get('args', []))}{', ...' if c.get('ellipsis') and c.get('origin') == 'tuple' else ''}; {', '.join(cons)})"
             if "g" in t:
                 return f"{t['g']}[{', '.join(pt(a) for a in t['args'])}]"
             if t["c"] == "~":
@@ -1074,8 +1429,8 @@ class C03(C02):
         for k in case.get("classes", []):
             fs = []
             for f in k["fields"]:
-                extra = {x: (dec2(f[x]) if x == "default" else f[x]) for x in f if x not in ("name", "type", "as_field")}
-                fs.append(f"{f['name']}: {pt(f['type'])}" + (f" {extra}" if extra else ""))
+                extra = {x: (dec2(f[x]) if x == "default" else f[x]) for x in f if x not in ("name", "type", "as_field", "fcs")}
+                fs.append(f"{f['name']}: {pt(field_node(f))}" + (f" {extra}" if extra else ""))
             parts.append(f"class {k['name']}({k['kind']}{', options=' + str(k['options']) if k.get('options') else ''}): " + "; ".join(fs))
         parts.append(f"type {pt(case['type'])}, options {case.get('options')}, input {dec2(case['input'])!r}")
         return " | ".join(parts)
@@ -1150,7 +1505,7 @@ class C03(C02):
             return f"copy/{'ok' if 'ok' in io else io.get('err')}"
         if case["op"] == "reparse":
             t = case["type"]
-            shape = "dc:" + case["classes"][t["dc"]]["kind"] if "dc" in t else ("comb:" + t["c"] if "c" in t else "gen:" + t["g"] if "g" in t else "leaf")
+            shape = "dc:" + case["classes"][t["dc"]]["kind"] if "dc" in t else ("comb:" + t["c"] if "c" in t else "gen:" + t["g"] if "g" in t else "cr:" + t["cr"]["origin"] if "cr" in t else "leaf")
             if io.get("decl") != "ok":
                 return f"reparse/{shape}/decl-{io.get('decl')}"
             f = io["first"]
